@@ -349,3 +349,17 @@ let c09_judge cs obs =
       (match twin_judge obs with
        | "ok" -> "ok"
        | s -> (match String.split_on_char ' ' s with _ :: sg :: rest -> "bad follow-up-" ^ sg ^ " " ^ String.concat " " rest | _ -> s))
+
+(* C13 (handler limit): a route whose group + variadic + later middleware number 63 or more is rejected *)
+let c13_limit_judge cs obs =
+  let c = parse_case cs in
+  let rec count g = function
+    | [] -> 0
+    | SGroup (_, m, body) :: r -> max (count (g + List.length m) body) (count g r)
+    | SRoute (_, _, _, var, later, _) :: r -> max (g + List.length var + List.length later) (count g r)
+    | _ :: r -> count g r in
+  let worst = count 0 c.stmts in
+  match obs with
+  | L [A "reg"; A "panic"] -> if worst >= 63 then "ok" else "bad registration-panics-below-the-limit handlers=" ^ string_of_int worst
+  | L [A "reg"; A "ok"] -> if worst >= 63 then "bad too-many-handlers-accepted handlers=" ^ string_of_int worst else "ok"
+  | _ -> "bad no-observation"
